@@ -57,3 +57,37 @@ def generate(module, deps=("Facto", "Int32"), env=None, simulate=None, cfg_text=
 
 def prog_id(prefix, p):
     return "%s-%s" % (prefix, hashlib.sha256(json.dumps(p, sort_keys=True).encode()).hexdigest()[:10])
+
+
+def generate_sim(module, num, depth, seed, deps=("Facto", "Int32"), timeout=900):
+    """Closed corpus from a state-machine generator run in TLC simulation mode with a FIXED seed: byte-identical on every run
+    (checked by setup). Programs are printed as <<"PROG", json>> from an invariant."""
+    from common import tagged_tuples
+    os.makedirs(CACHE, exist_ok=True)
+    key = _hash_sources((module,) + tuple(deps), json.dumps([num, depth, seed]))
+    path = os.path.join(CACHE, "%s-sim-%s.json" % (module, key))
+    if os.path.exists(path):
+        with open(path) as fh:
+            return json.load(fh)
+    d = os.path.join(CACHE, "sim-%s-%d" % (module, os.getpid()))
+    shutil.rmtree(d, ignore_errors=True)
+    os.makedirs(d)
+    with open(os.path.join(d, "G.tla"), "w") as fh:
+        fh.write("---- MODULE G ----\nEXTENDS %s\n====\n" % module)
+    with open(os.path.join(d, "G.cfg"), "w") as fh:
+        fh.write("SPECIFICATION Spec\nINVARIANT Emit\nCHECK_DEADLOCK FALSE\n")
+    code, text, wall = run_tlc(d, "G", cfg="G.cfg", workers=1, timeout=timeout, simulate="num=%d" % num, extra=("-depth", str(depth), "-seed", str(seed)))
+    progs = []
+    for f in tagged_tuples(text, "PROG"):
+        progs.append(json.loads(json.loads(f[1])))
+    if len(progs) < num // 2:
+        raise Machinery("simulation generator %s produced %d programs: %s" % (module, len(progs), text[-1500:]))
+    seen, uniq = set(), []
+    for p in progs:
+        if p["src"] not in seen:
+            seen.add(p["src"])
+            uniq.append(p)
+    with open(path, "w") as fh:
+        json.dump(uniq, fh)
+    shutil.rmtree(d, ignore_errors=True)
+    return uniq
